@@ -178,7 +178,7 @@ PROPS["C07"] = dict(
 )
 PROPS["C09"] = dict(
     title="the expression front end is total and strict",
-    quick=[L("M_TOK", cfg="M_TOK_cond"), L("M_TOK", cfg="M_TOK_upd"), dict(kind="R", gen="strings", n=1500, maxlen=600)],
+    quick=[L("M_TOK", cfg="M_TOK_cond"), L("M_TOK", cfg="M_TOK_upd"), dict(kind="R", gen="strings", n=3000, maxlen=600)],
     thorough=[L("M_TOK", cfg="M_TOK_cond_t"), L("M_TOK", cfg="M_TOK_upd_t"), dict(kind="R", gen="strings", n=6000, maxlen=2048)],
     own=[labparts("NoCrash", "Accepted", "Placeholders", "Reserved", "Outcome", "Result", "Modified")],
     design_ref="DESIGN.md 6 C09",
